@@ -139,7 +139,7 @@ fn drive_state(su: &Setup, ep: &str, a: &SVec<Val>, pred: &BytesN<32>, salt: &By
     id
 }
 
-fn systematic(cfg: &Cfg, rep: &mut Report) {
+pub fn systematic(cfg: &Cfg, rep: &mut Report) {
     let mut idx: u64 = 0;
     for with_exec in [false, true] {
         for ep in EPS {
@@ -264,7 +264,7 @@ fn one_case(rep: &mut Report, idx: u64, with_exec: bool, ep: &str, state: &str, 
 
 
 /// Operations scheduled WITH a predecessor: the descriptor cannot shed or swap the predecessor.
-fn predecessor_cases(cfg: &Cfg, rep: &mut Report) {
+pub fn predecessor_cases(cfg: &Cfg, rep: &mut Report) {
     let mut k = 0u64;
     for with_exec in [false, true] {
         for ep in EPS {
